@@ -280,6 +280,12 @@ def rel_c06(cl, tl, rel, ra, rb):
     if a != b:
         if has_label_args(cl):
             return ("known", "D7", "Memoize changes the result of a grammar whose blocks take label arguments")
+        if c["l"] and a[:2] == b[:2]:
+            # D26: same value; the memoized run lacks block errors of the plain run (errors of a discarded
+            # left-recursion growth attempt are rolled back, the memo entries made during it are not)
+            memo_side, plain_side = (a, b) if c["memoize"] else (b, a)
+            if set(memo_side[3]) < set(plain_side[3]):
+                return ("known", "D26", "with left recursion a memo hit loses a block error that was rolled back with a discarded growth attempt")
         return ("viol", "Memoize changes the result: %r vs %r" % (a, b))
     return None
 
